@@ -16,8 +16,6 @@ func Operate3[A any, B any, C any, R any](ac <-chan A, bc <-chan B, cc <-chan C,
 	rc := make(chan R)
 
 	go func() {
-		defer close(rc)
-
 		for {
 			an, ok := <-ac
 			if !ok {
@@ -37,8 +35,10 @@ func Operate3[A any, B any, C any, R any](ac <-chan A, bc <-chan B, cc <-chan C,
 			rc <- o(an, bn, cn)
 		}
 
-		Drain(ac)
-		Drain(bc)
+		close(rc)
+
+		go Drain(ac)
+		go Drain(bc)
 		Drain(cc)
 	}()
 
